@@ -470,7 +470,7 @@ func checkC19(c C19Case, st *Stats) error {
 	return err
 }
 
-var propC19 = Register(Prop[C19Case]{ID: "C19", Name: "C19", Check: checkC19})
+var propC19 = Register(Prop[C19Case]{ID: "C19", Name: "C19", Pending: true, Check: checkC19})
 
 func TestC19Rapid(t *testing.T) {
 	p := propC19
